@@ -87,6 +87,9 @@ def _body(draw, decorated: bool):
             items.append({"t": "iv", "n": n, "v": draw(_value_nofactory)})
         elif t == "cv":
             items.append({"t": "cv", "n": n, "bare": draw(_i01), "v": draw(_i01)})
+        elif t == "prop":
+            # ann: return annotation (Griffe's attribute then carries an annotation, like a field); cached: functools.cached_property
+            items.append({"t": t, "n": n, "ann": draw(_i01), "cached": int(draw(_i03) == 0)})
         else:
             items.append({"t": t, "n": n})
     if items and draw(_i03) == 0:
@@ -369,7 +372,7 @@ def render_header(case: dict) -> list[str]:
     lines = []
     if case["future"]:
         lines.append("from __future__ import annotations")
-    lines += [imp, cv_imp]
+    lines += [imp, cv_imp, "import functools"]
     return lines
 
 
@@ -409,7 +412,8 @@ def render_class(case: dict, i: int) -> list[str]:
         elif t == "u":
             lines.append(f"    {item['n']} = 0")
         elif t == "prop":
-            lines += ["    @property", f"    def {item['n']}(self): ..."]
+            deco = "@functools.cached_property" if item.get("cached") else "@property"
+            lines += [f"    {deco}", f"    def {item['n']}(self){' -> int' if item.get('ann') else ''}: ..."]
         elif t == "meth":
             lines.append(f"    def {item['n']}(self): ...")
         elif t == "init":
@@ -451,7 +455,9 @@ def package_cases(draw, avoid_inherited_value: bool = False):
         lo = max((ranks[b] for b in cls["bases"]), default=0)
         ranks.append(draw(st.integers(lo, 2)))
     perm = list(draw(st.permutations([0, 1, 2])))
-    return {"kind": "dcpkg", "dc": dc, "ranks": ranks, "perm": perm, "rel": draw(st.integers(0, 7))}
+    # wild: bit per module = it imports its bases with `from .src import *` (only from submodules); all: bit per module = the
+    # module defines __all__ (its own classes), so that a wildcard import of it does not re-export `dataclass`, `field`, ...
+    return {"kind": "dcpkg", "dc": dc, "ranks": ranks, "perm": perm, "rel": draw(st.integers(0, 7)), "wild": draw(st.integers(0, 7)), "all": draw(st.integers(0, 7))}
 
 
 @st.composite
@@ -524,7 +530,10 @@ def render_package(case: dict, pkg: str) -> dict[str, str]:
                 target = "." if src == "__init__" else f".{src}"
             else:
                 target = pkg if src == "__init__" else f"{pkg}.{src}"
-            lines.append(f"from {target} import {', '.join(names)}")
+            wildcard = bool((case.get("wild", 0) >> PKG_MODULES.index(mod)) & 1) and src != "__init__"
+            lines.append(f"from {target} import {'*' if wildcard else ', '.join(names)}")
+        if (case.get("all", 0) >> PKG_MODULES.index(mod)) & 1 and mod != "__init__":
+            lines.append("__all__ = [" + ", ".join(f'"C{i}"' for i in idxs) + "]")
         lines.append("")
         for i in idxs:
             lines += render_class(dc, i)
@@ -588,6 +597,10 @@ def stats(case: dict) -> tuple[bool, list[str]]:
                 labels.add("initvar")
             elif t in ("u", "prop", "meth"):
                 labels.add({"u": "unannotated-attribute", "prop": "property", "meth": "method"}[t])
+                if t == "prop" and it.get("ann"):
+                    labels.add("property-annotated" + ("-named-like-inherited-field" if it["n"] in inherited else ""))
+                if t == "prop" and it.get("cached"):
+                    labels.add("cached_property")
             if t in ("f", "iv") and it["v"] is not None and "p" not in it["v"]:
                 v = it["v"]
                 labels.add("field()")
